@@ -8,12 +8,131 @@ import (
 	"io"
 	"math"
 	"math/big"
+	"math/rand"
+	"sort"
 
 	"github.com/aclements/go-moremath/stats"
 )
 
 func init() {
-	families["hist"] = &family{replay: histReplay}
+	families["hist"] = &family{replay: histReplay, record: histRecord}
+}
+
+type histEvShape struct {
+	Kind  string `json:"kind"`
+	Min   int64  `json:"min"`
+	Max   int64  `json:"max"`
+	NBins int    `json:"nbins"`
+	Unit  int64  `json:"unit"`
+	B     int    `json:"b"`
+	M     int    `json:"m"`
+}
+type histEvent struct {
+	Op       string      `json:"op"`
+	Shape    histEvShape `json:"shape"`
+	X        int64       `json:"x"`
+	Under    uint        `json:"under"`
+	Bins     []uint      `json:"bins"`
+	Over     uint        `json:"over"`
+	A        int         `json:"a"`
+	R        fdy         `json:"r"`
+	Panicked int         `json:"panicked"`
+	Seed     int64       `json:"seed"`
+	Idx      int         `json:"idx"`
+}
+
+func histRecord(out io.Writer, args []string) error {
+	rf := newRecFlags("hist", 60)
+	adds := rf.fs.Int("adds", 120, "values added per history")
+	rf.fs.Parse(args)
+	enc := json.NewEncoder(out)
+	z := mkfdy(0)
+	for idx := 0; idx < *rf.n; idx++ {
+		if !rf.mine(idx) {
+			continue
+		}
+		rng := rand.New(rand.NewSource(*rf.seed*1000003 + int64(idx)))
+		enc.Encode(histEvent{Op: "Reset", Bins: []uint{}, R: z, Seed: *rf.seed, Idx: idx})
+		var h stats.Histogram
+		var sh histEvShape
+		var val func(x int64) float64
+		var draw func() int64
+		if rng.Intn(2) == 0 {
+			unit := []int64{1, 4, 8, 10}[rng.Intn(4)]
+			nb := 1 + rng.Intn(50)
+			mn := int64(rng.Intn(400)) - 200
+			width := int64(1 + rng.Intn(600))
+			if rng.Intn(3) == 0 {
+				width = int64(nb) * int64(1+rng.Intn(6)) // integral bin width in lattice units
+			}
+			sh = histEvShape{Kind: "lin", Min: mn, Max: mn + width, NBins: nb, Unit: unit}
+			h = stats.NewLinearHist(float64(sh.Min)/float64(unit), float64(sh.Max)/float64(unit), nb)
+			val = func(x int64) float64 { return float64(x) / float64(unit) }
+			draw = func() int64 {
+				switch rng.Intn(6) {
+				case 0: // within one bin width below the first edge
+					return sh.Min - 1 - rng.Int63n(width/int64(nb)+1)
+				case 1:
+					return sh.Min + rng.Int63n(3) - 1
+				case 2:
+					return sh.Max + rng.Int63n(3) - 1
+				case 3:
+					return sh.Min - width + rng.Int63n(3*width)
+				default:
+					return sh.Min + rng.Int63n(width+1)
+				}
+			}
+		} else {
+			b := 2 + rng.Intn(9)
+			m := 1 + rng.Intn(3)
+			if b > 6 && m > 2 {
+				m = 2
+			}
+			nb := 1 + rng.Intn(3*m+2)
+			sh = histEvShape{Kind: "log", B: b, M: m, NBins: nb}
+			h = stats.NewLogHist(b, float64(m), math.Pow(float64(b), (float64(nb)-0.5)/float64(m)))
+			val = func(x int64) float64 {
+				if x == 0 {
+					return 0.5
+				}
+				return float64(x)
+			}
+			top := int64(math.Min(150, math.Pow(float64(b), float64(nb)/float64(m))*2+3))
+			draw = func() int64 { return rng.Int63n(top + 1) }
+		}
+		if _, bins, _ := h.Counts(); len(bins) != sh.NBins {
+			// the harness asked for nbins bins; a different number is logged and will not match New
+			sh.NBins = len(bins)
+		}
+		u, b, o := counters(h)
+		enc.Encode(histEvent{Op: "New", Shape: sh, Under: u, Bins: b, Over: o, R: z, Seed: *rf.seed, Idx: idx})
+		n := 1 + rng.Intn(*adds)
+		for k := 0; k < n; k++ {
+			x := draw()
+			h.Add(val(x))
+			u, b, o := counters(h)
+			enc.Encode(histEvent{Op: "Add", X: x, Under: u, Bins: b, Over: o, R: z, Seed: *rf.seed, Idx: idx})
+			if rng.Intn(8) == 0 || k == n-1 {
+				// a few quantile queries at increasing levels
+				as := []int{0, 1024, rng.Intn(1025), rng.Intn(1025), 256, 512, 768}
+				sort.Ints(as)
+				for _, a := range as {
+					ev := histEvent{Op: "Quantile", A: a, Bins: []uint{}, Seed: *rf.seed, Idx: idx}
+					func() {
+						defer func() {
+							if r := recover(); r != nil {
+								ev.Panicked = 1
+								ev.R = z
+							}
+						}()
+						ev.R = mkfdy(stats.HistogramQuantile(h, float64(a)/1024))
+					}()
+					enc.Encode(ev)
+				}
+			}
+		}
+	}
+	return nil
 }
 
 type histShape struct {
@@ -96,7 +215,7 @@ func histReplay(in io.Reader, raw bool, args []string) (*Summary, error) {
 			b2v = func(t *big.Rat) float64 {
 				return rf(new(big.Rat).Add(big.NewRat(sh.Min, sh.Unit), new(big.Rat).Mul(t, w)))
 			}
-			exactEdges = isPow2(w.Num()) && isPow2(w.Denom())
+			exactEdges = isPow2(w.Num()) && isPow2(w.Denom()) && isPow2(big.NewInt(sh.Unit))
 			scale = mx - mn
 		} else {
 			mx := math.Pow(float64(sh.B), (float64(sh.NBins)-0.5)/float64(sh.M))
